@@ -72,20 +72,38 @@ func c09Check(c *hist.Case, r *evid.Rec) []evid.Disc {
 		}
 		return nil
 	}
+	// the step in which each of the subscriber's connections received its CONNACK: normally the connect step, later
+	// when the handler was held at a schedule point in between (a takeover with traffic arriving in the middle)
+	connackAt := map[int]int{}
+	for _, p := range run.Peers {
+		if p.CID != S {
+			continue
+		}
+		for i, pk := range p.Got {
+			if pk.Type == refmqtt.CONNACK {
+				connackAt[p.GotStep[i]] = p.ID
+				break
+			}
+		}
+	}
 	for _, s := range run.Steps {
-		// (1) a connect of the subscriber: resend obligations are judged on what arrives in this very step
+		// (1) a connect of the subscriber: resend obligations are judged on what arrives in the step of its CONNACK
 		var resumed, reset bool
 		var newPeer *hist.Peer
-		if s.A.Kind == "connect" && s.A.Client == 0 && s.Peer >= 0 {
-			newPeer = run.Peers[s.Peer]
+		if pid, ok := connackAt[s.I]; ok {
+			newPeer = run.Peers[pid]
 			if newPeer.Established() {
-				if newPeer.Connack.SessionPresent && !s.A.Clean {
+				if newPeer.Connack.SessionPresent && !run.Steps[newPeer.OpenedAt].A.Clean {
 					resumed = true
 				} else {
 					reset = true
 				}
 			}
+			if s.A.Kind == "release" {
+				r.Label("takeover-with-traffic-in-the-middle")
+			}
 		}
+		resumeStep := newPeer != nil
 		before := map[int]c09Ent{}
 		for _, e := range outstanding() {
 			before[e.tag] = *e
@@ -182,7 +200,7 @@ func c09Check(c *hist.Case, r *evid.Rec) []evid.Disc {
 				if e.firstPeer >= 0 && e.firstPeer != o.Peer && !o.P.Dup {
 					ds = append(ds, evid.D(c09Sig(e, "C09-resend-without-dup"), "step %d: m%d was transmitted before on connection #%d and is resent on #%d without DUP", s.I, tag, e.firstPeer, o.Peer))
 				}
-				if s.I != e.queuedStep && s.A.Kind != "connect" && !e.deferred {
+				if s.I != e.queuedStep && s.A.Kind != "connect" && !resumeStep && !e.deferred {
 					// (re)transmitted in a step that is neither its publish nor a reconnect: it came out of the broker's
 					// deferred-send path (also when it had already been resent once on a reconnect while still marked)
 					e.deferred = true
@@ -293,6 +311,17 @@ func c09Gen(rt *rapid.T) *hist.Case {
 		}
 	})
 	acts := rapid.SliceOfN(action, 4, 35).Draw(rt, "actions")
+	if rapid.IntRange(0, 3).Draw(rt, "parked-takeover") == 0 {
+		// a resuming connect that waits between disconnecting the old connection and taking the session over, while
+		// the publisher sends one more message: the resumed session must get it like any other unacknowledged message
+		tk := sub
+		tk.Park = []string{"inherit.afterDisconnectOld"}
+		at := rapid.IntRange(0, len(acts)).Draw(rt, "takeover-at")
+		mid := []hist.Action{tk,
+			{Kind: "publish", Client: 1, Topic: "t/a", QoS: byte(rapid.IntRange(1, 2).Draw(rt, "tq"))},
+			{Kind: "release", Client: 0}}
+		acts = append(acts[:at], append(mid, acts[at:]...)...)
+	}
 	if ver == 5 || rapid.Bool().Draw(rt, "with-will") {
 		if rapid.IntRange(0, 2).Draw(rt, "will-class") == 0 {
 			// a third client leaves a delayed QoS 1 will behind: it is published by the housekeeping (virtual time) at a
@@ -314,7 +343,7 @@ func c09Gen(rt *rapid.T) *hist.Case {
 }
 
 func TestC09(t *testing.T) {
-	r := evid.New("C09", "rapid: a subscriber with a persistent session (v3.1/v3.1.1 clean session 0, v5 expiry>0; receive maximum absent or 1-2) on a QoS 1/2 subscription acknowledges by hand in generated order and stage (PUBACK; PUBREC without PUBCOMP; nothing), is dropped, closed, disconnected, taken over and reconnects with clean start 0 or 1, while a publisher sends QoS 1/2 messages also when the subscriber is offline; in some histories a third client's delayed QoS 1 will is published by the will housekeeping (virtual time) and the in-flight housekeeping runs afterwards; oracle: a model map tag -> {packet id, stage} built from the wire; at every CONNACK with session present each outstanding entry must be resent in that step (PUBLISH with the same identifier, DUP if sent before on another connection; PUBREL instead once the client sent PUBREC), nothing acknowledged ever reappears, nothing is resent after clean start; non-trivial = a resumed connect with >=1 outstanding entry; distinct by (history, step)")
+	r := evid.New("C09", "rapid: a subscriber with a persistent session (v3.1/v3.1.1 clean session 0, v5 expiry>0; receive maximum absent or 1-2) on a QoS 1/2 subscription acknowledges by hand in generated order and stage (PUBACK; PUBREC without PUBCOMP; nothing), is dropped, closed, disconnected, taken over and reconnects with clean start 0 or 1, while a publisher sends QoS 1/2 messages also when the subscriber is offline; in a quarter of the histories a resuming CONNECT is held between disconnecting the old connection and taking the session over while another message is published (verif schedule point); in some histories a third client's delayed QoS 1 will is published by the will housekeeping (virtual time) and the in-flight housekeeping runs afterwards; oracle: a model map tag -> {packet id, stage} built from the wire; at every CONNACK with session present each outstanding entry must be resent in that step (PUBLISH with the same identifier, DUP if sent before on another connection; PUBREL instead once the client sent PUBREC), nothing acknowledged ever reappears, nothing is resent after clean start; non-trivial = a resumed connect with >=1 outstanding entry; distinct by (history, step)")
 	defer r.Finish(t)
 	if evid.ReplayMode() {
 		evid.Replay(t, r, replayPath(), c09Check)
